@@ -235,6 +235,8 @@ def observe(fn):
 def exc_class(e):
     if isinstance(e, OSError) and not isinstance(e, (UnicodeError,)):
         return "OSError"
+    if isinstance(e, ImportError):
+        return "ImportError"
     return type(e).__name__
 
 
@@ -396,7 +398,7 @@ def opt(s):
     return "-" if s is None else "=" + s
 
 
-def model_input(kind, s, ab, path, data, kw):
+def model_input(kind, s, ab, path, data, kw, installed=True):
     """Abstract description of one call for Model/Channels.v (fields joined by lib.FS)."""
     enc = kw.get("encoding", None)
     auto = kw.get("autodetect_encoding", True)
@@ -422,7 +424,7 @@ def model_input(kind, s, ab, path, data, kw):
         flags = adhoc_flags(path)
         btxt = data.decode("latin-1")
     return lib.fields(kind, s, ab, path or "", btxt, opt(enc), a, n, lib.RS.join(recs), flags,
-                      "T" if chardet_installed() else "F")
+                      "T" if (installed and chardet_installed()) else "F")
 
 
 RUN_DEF = """
@@ -576,7 +578,8 @@ def gen_decision(rng):
     if "autodetect_encoding" in kw and kw["autodetect_encoding"] is True and rng.random() < 0.5:
         del kw["autodetect_encoding"]
     return {"kind": "decision", "text": text, "fields_text": ftxt, "written": written,
-            "newline": rng.choice(list(NEWLINES)), "channel": rng.choice(["str_path", "Path"]), "kwargs": kw}
+            "newline": rng.choice(list(NEWLINES)), "channel": rng.choice(["str_path", "Path"]), "kwargs": kw,
+            "no_chardet": rng.random() < 0.12}
 
 
 JUNK_ALPHA = "ab~.\n\r\x0b\x0c\x1c\x1d\x1e\x85\u2028\u2029 \t\u00e9\u0416/"
@@ -612,11 +615,26 @@ def eval_decision(payload, tmpdir):
         f.write(data)
     kw = kwargs_of(payload)
     x = p if payload["channel"] == "str_path" else pathlib.Path(p)
-    obs, las, exc = open_observation(x, kw)
+    hide = bool(payload.get("no_chardet"))
+    minp = model_input("S" if payload["channel"] == "str_path" else "P", p, p, p, data, kw, installed=not hide)
+    if hide:
+        # `import chardet` raises ImportError while the entry is None (nothing in lasio is touched)
+        import sys
+        saved = sys.modules.get("chardet", "absent")
+        sys.modules["chardet"] = None
+        try:
+            obs, las, exc = open_observation(x, kw)
+        finally:
+            if saved == "absent":
+                del sys.modules["chardet"]
+            else:
+                sys.modules["chardet"] = saved
+    else:
+        obs, las, exc = open_observation(x, kw)
     bad = []
     corr = None
     if not (isinstance(exc, (UnicodeError, LookupError)) and not hasattr(las, "encoding")):
-        corr = (model_input("S" if payload["channel"] == "str_path" else "P", p, p, p, data, kw), obs)
+        corr = (minp, obs)
     if obs.startswith("F="):
         enc = las.encoding
         errors = kw.get("encoding_errors", "replace")
@@ -691,8 +709,13 @@ def eval_dispatch(payload, tmpdir):
             obs, las, exc = open_observation(x, {})
         finally:
             os.remove(p)
-        # known-finding candidate (not counted as a violation here): a Path whose name contains a
-        # line-break character is taken for LAS content.  The model predicts exactly that.
+        # known-finding candidate: a Path whose name contains a line-break character is taken for
+        # LAS content (Path -> str -> splitlines).  The model predicts exactly that, so the tie
+        # holds; it is reported as a violation only when the payload asks for it ("strict"), which
+        # is what the replay file corpus/C10_path_linebreak.json does.
+        if payload.get("strict") and obs != "F=utf-8-sig":
+            bad.append("pathlib.Path %r names a readable LAS file but is not opened as a file (observed %s): "
+                       "a Path whose name contains a line-break character is treated as LAS content" % (name, obs))
         return bad, (model_input("P", p, str(x.absolute()), None, None, {}), obs)
     raise ValueError(how)
 
@@ -973,8 +996,32 @@ def tuple_key(p):
             p.get("enc_mode", p.get("written")), p["newline"], json.dumps(p.get("kwargs", {}), sort_keys=True))
 
 
+CORPUS_TEXT = ("~V\nVERS. 2.0 : v\nWRAP. NO : w\n~W\nNULL. -999.25 : n\nSTRT.m 1 : start\n"
+               "COMP. Soci\u00e9t\u00e9 G\u00e9n\u00e9rale \u00f1 : compa\u00f1\u00eda \u00abx\u00bb\n~C\nDEPT.m : depth\n"
+               "A.\u00b5s : \u00c5ngstr\u00f6m\n~P\nX. 1 : px\n~O\nfree t\u00e9xt \u00fc\n~A\n1 2\n3 -999.25\n")
+
+
+def corpus_tuples():
+    """recon/p10.py's text through every (channel, encoding, newline) combination, default kwargs"""
+    out = []
+    for ch in CHANNELS:
+        if ch not in FILE_CHANNELS:
+            out.append({"kind": "channel", "text": CORPUS_TEXT, "fields_text": minimal_fields(CORPUS_TEXT),
+                        "channel": ch, "enc_mode": "-", "newline": "-", "kwargs": {}})
+            continue
+        for em in ENC_MODES:
+            for nl in NEWLINES:
+                kw = {} if em == "utf-8-sig-auto" or ch == "fileobj" else {"encoding": em}
+                out.append({"kind": "channel", "text": CORPUS_TEXT, "fields_text": minimal_fields(CORPUS_TEXT),
+                            "channel": ch, "enc_mode": em, "newline": nl, "kwargs": kw})
+    return out
+
+
 def stream(rng, n_tuples, n_decisions, n_dispatch, n_hist, tmpdir):
     """Yields (payload, violations, corr) for every generated case, in a fixed order."""
+    for p in corpus_tuples():
+        bad, corr = eval_case(p, tmpdir)
+        yield p, bad, corr
     for i in range(n_tuples):
         p = gen_tuple(rng, i)
         bad, corr = eval_case(p, tmpdir)
@@ -1030,7 +1077,7 @@ def run(ctx):
                 hist["%s/%s/%s" % (p["channel"], p["enc_mode"], p["newline"])] += 1
                 if non_ascii_counter(p["fields_text"]):
                     nontrivial.add(("T",) + tuple_key(p))
-                if len(samples) < 6 and p["channel"] in FILE_CHANNELS and len(p["text"]) < 400:
+                if len(samples) < 6 and p["channel"] in FILE_CHANNELS and len(p["text"]) < 400 and p["text"] != CORPUS_TEXT:
                     samples.append("%s/%s/%s %r :: %r" % (p["channel"], p["enc_mode"], p["newline"], p["kwargs"], p["text"][:160]))
             if corr is not None:
                 cases.append(corr)
@@ -1066,6 +1113,12 @@ def replay(payload):
             return (bad is not None), (bad or "history replays without a purity violation")
         bad, _ = eval_case(payload, tmpdir)
         return bool(bad), ("; ".join(bad) if bad else "ok")
+
+
+def finding_of(payload):
+    if payload.get("kind") == "dispatch" and payload.get("how") == "path_with_linebreak":
+        return "path-linebreak"
+    return None
 
 
 def search(ctx, res):
